@@ -42,6 +42,7 @@ func isBasic(t string) bool {
 
 // incarnation: one successful declaration of a named type.
 type incarnation struct {
+	Alias   bool // declared as "type Name = layout"
 	ID      int
 	Name    string
 	Lay     int
@@ -73,6 +74,9 @@ func (t typeRef) same(u typeRef) bool { return t.Basic == u.Basic && t.Inc == u.
 // text is what xreflect prints for the type.
 func (t typeRef) text() string {
 	if t.Inc != nil {
+		if t.Inc.Alias {
+			return layouts[t.Inc.Lay].Src // an alias has no name of its own
+		}
 		return "main." + t.Inc.Name
 	}
 	return t.Basic
